@@ -671,6 +671,7 @@ class GIRWriter(XMLWriter):
         if field.anonymous_node:
             if isinstance(field.anonymous_node, ast.Callback):
                 attrs = [('name', field.name)]
+                self._append_version(field, attrs)
                 self._append_node_generic(field, attrs)
                 with self.tagcontext('field', attrs):
                     self._write_generic(field)
